@@ -171,7 +171,7 @@ func checkC15(c *FmtCase) Result {
 	// (T3) differential with fmt.Errorf for at most one %w
 	if nW <= 1 && fmtCompat && !hasSharpW && !c.HasHook {
 		var fe error
-		if p, _ := guard(func() { fe = fmt.Errorf(format, args...) }); !p && !(strings.Contains(fe.Error(), "(PANIC=") && hasWidthOrPrec(c)) {
+		if p, _ := guard(func() { fe = fmt.Errorf(format, args...) }); !p {
 			// (the excluded combination is the toolchain drift described in c04_fidelity.go)
 			if g, w := strip(got.out), esc([]byte(fe.Error())); !bytes.Equal(g, w) {
 				return fail("text stripped %s, fmt.Errorf message %s", q(g), q(w))
